@@ -366,7 +366,7 @@ countall(Goal, N) :-
     ;   true
     ),
     setup_call_cleanup(call_nth_nesting(C, ID),
-                       (   (   Goal,
+                       (   (   call(Goal),
                                bb_get(ID, N0),
                                N1 is N0 + 1,
                                bb_put(ID, N1),
